@@ -8,7 +8,7 @@ EXPLANATION = (
     "newest first; exactly those workers (and the ones cancelled explicitly) observe a cancellation, and have exited by the next quiet idle."
 )
 ASSUMPTIONS = ["bounds: <= 5 tasks, sizes {2,3,inf}"]
-BUDGET = {"quick": 120, "thorough": 1800}
+BUDGET = {"quick": 120, "thorough": 900}
 MON = ["C14"]
 
 
